@@ -167,6 +167,10 @@ class Session:
                        check=True, stdout=subprocess.DEVNULL, stderr=subprocess.DEVNULL)
         self.alive = True
 
+    def _req_path(self, path, timeout=10.0):
+        with urllib.request.urlopen('http://127.0.0.1:%d%s' % (self.port, path), timeout=timeout) as f:
+            return f.read()
+
     def _req(self, data=None, timeout=3.0, headers=None):
         req = urllib.request.Request('http://127.0.0.1:%d/' % self.port, data=data, headers=headers or {})
         with urllib.request.urlopen(req, timeout=timeout) as f:
@@ -301,7 +305,7 @@ DRIVERS = {'pipe': drv_pipe, 'race': drv_race}
 
 def run(name, tier, seed, ctx):
     if name not in DRIVERS:
-        import procs_tmux  # registers the interactive drivers
+        import procs_tmux, procs_conv  # register the interactive drivers
     return DRIVERS[name](tier, seed, ctx)
 
 
@@ -317,6 +321,12 @@ def replay(rp, ctx):
         p = subprocess.run([ctx['fzf']] + pr['argv'], input=stream, stdout=subprocess.PIPE, stderr=subprocess.PIPE, env=env, timeout=120)
         line = lhs + ' => %d %s' % (p.returncode, enc_bytes(p.stdout))
         return evaluate(ctx['driver'], [line])
+    if pr.get('kind') == 'tmux-conv':
+        import procs_conv
+        return procs_conv.replay(rp, ctx)
+    if pr.get('kind') in ('race-detector', 'race-build'):
+        rs, _ = drv_race('quick', 1, ctx)
+        return rs
     if pr.get('kind'):
         import procs_tmux
         return procs_tmux.replay(rp, ctx)
